@@ -16,6 +16,9 @@ import Gen.imo
 import Gen.casrn
 import Gen.bic
 import Gen.isrc
+import Gen.iban__b
+import Gen.db_iban
+import Spec.NumDB
 /-!
 # Spec.Standards — the published rules of the international identifiers of property C07
 
@@ -40,8 +43,11 @@ Shared with the generated code, on purpose (see the property text: "given the sa
 `tools/corr/standards.py` compares the two on the corpus, all single-edit neighbours and random strings
 through `Driver/Standards.lean`.
 
-Not covered: IBAN (`Gen.iban.validate` is not translated: nested function, registry type) and Bitcoin
-(`Gen.bitcoin.validate` is not translated: `functools.reduce`, `bytes`).
+IBAN (`Std_iban`, `Std_iban_cc`) takes the registry table as a parameter (`ibanRegistryOf db`: country code and BBAN
+structure tokens of every line of the numdb tree `db`; `ibanRegistry` is the one of the shipped `iban.dat`) and, for
+`check_country=True`, the national validators as a parameter.
+
+Not covered: Bitcoin (`Gen.bitcoin.validate` is not translated: `functools.reduce`, `bytes`).
 -/
 namespace Spec.Standards
 open Py
@@ -296,6 +302,91 @@ def Std_isrc (t : Str) : Bool :=
     Gen.isrc._country_codes.contains (t.take 2)
 
 def canon_isrc (x : Str) : Str := canonOf (Gen.isrc.compact x)
+
+/-! ## IBAN (ISO 13616-1; SWIFT IBAN registry)
+
+An IBAN is: the two-letter ISO 3166 country code, two decimal check digits, and the BBAN, whose structure the IBAN
+registry fixes per country as a sequence of fields `<count>!<class>` with the classes `n` (digits `0`–`9`), `a`
+(upper-case letters `A`–`Z`) and `c` (alphanumerics; the electronic format is upper case, and the canonicalisation
+upper-cases).  Check (ISO 7064 MOD 97-10): the BBAN followed by the country code and the check digits, letters
+replaced by `10`..`35`, read as one decimal numeral, is `≡ 1 (mod 97)`.
+
+The registry is a parameter: a list of lines (country code, fields).  `ibanRegistryOf db` reads it off a numdb tree
+(`iban.dat`: one top-level entry per country with the property `bban`); the notation reader `parseBban` is this file's
+own (`[1-9][0-9]*![nac]` repeated, nothing else).
+
+With `check_country` (the default of `iban.validate`): "where one exists, the national IBAN validator" must accept
+as well; the national validators are a parameter `national : country code → Option (Str → Bool)`. -/
+
+/-- the class letters of the registry's structure notation: `n`, `a`, `c` (anything else: no character) -/
+def ibanClass (k : Nat) (c : Nat) : Bool :=
+  if k = 110 then isD c else if k = 97 then isU c else if k = 99 then isDU c else false
+
+/-- `b` is made of the fields, one after the other, and nothing else: `count` characters of the class each -/
+def ibanFields : List (Nat × Nat) → Str → Bool
+  | [], b => b.isEmpty
+  | t :: ts, b => decide (t.1 ≤ b.length) && (b.take t.1).all (ibanClass t.2) && ibanFields ts (b.drop t.1)
+
+/-- ISO 13616 with the registry `reg` (country code, BBAN fields): at least four characters; a registered country code
+of two letters; two decimal check digits; the BBAN has the fields of a registry line of that country;
+`BBAN ‖ country code ‖ check digits ≡ 1 (mod 97)` -/
+def Std_iban (reg : List (Str × List (Nat × Nat))) (t : Str) : Bool :=
+  decide (4 ≤ t.length) && (t.take 2).all isU && ((t.drop 2).take 2).all isD &&
+    reg.any (fun r => r.1 == t.take 2 && ibanFields r.2 (t.drop 4)) &&
+    numeral ((t.drop 4 ++ t.take 4).map v36) % 97 == 1
+
+/-- the option is off, or the country has no national IBAN validator, or that validator accepts -/
+def ibanNationalOk (national : Str → Option (Str → Bool)) (check_country : Bool) (t : Str) : Bool :=
+  !check_country || (match national (t.take 2) with
+                     | none => true
+                     | some f => f t)
+
+/-- `check_country=True`: in addition, the national IBAN validator of the country, where one exists, accepts -/
+def Std_iban_cc (reg : List (Str × List (Nat × Nat))) (national : Str → Option (Str → Bool))
+    (check_country : Bool) (t : Str) : Bool :=
+  Std_iban reg t && ibanNationalOk national check_country t
+
+/-- `[1-9][0-9]*` at the start of `s`: its value and the rest -/
+def bbanCount (s : Str) : Option (Nat × Str) :=
+  match s with
+  | c :: _ =>
+    if 49 ≤ c ∧ c ≤ 57 then
+      let ds := s.takeWhile isD
+      some (ds.foldl (fun acc d => acc * 10 + (d - 48)) 0, s.dropWhile isD)
+    else none
+  | [] => none
+
+/-- the registry's structure notation: `<count>!<n|a|c>` repeated, nothing else (fuel = length of the string) -/
+def parseBbanAux : Nat → Str → Option (List (Nat × Nat))
+  | _, [] => some []
+  | 0, _ :: _ => none
+  | fuel + 1, s =>
+    match bbanCount s with
+    | some (n, 33 :: k :: rest) =>
+      if k = 110 ∨ k = 97 ∨ k = 99 then
+        match parseBbanAux fuel rest with
+        | some ts => some ((n, k) :: ts)
+        | none => none
+      else none
+    | _ => none
+
+def parseBban (s : Str) : Option (List (Nat × Nat)) := parseBbanAux s.length s
+
+/-- the registry table of a numdb tree: per top-level entry the country code (`low`) and the fields of its `bban`
+property (`''` if absent); lines whose structure is not in the notation are not part of the table -/
+def ibanRegistryOf (db : List Spec.NumDB.Entry) : List (Str × List (Nat × Nat)) :=
+  db.filterMap (fun e => (parseBban (Py.dictGetD e.props [98, 98, 97, 110] [])).map (fun toks => (e.low, toks)))
+
+/-- the table of the shipped `stdnum/iban.dat` (a DATA table shared with the generated code, see above) -/
+def ibanRegistry : List (Str × List (Nat × Nat)) := ibanRegistryOf Gen.db_iban.db
+
+def canon_iban (x : Str) : Str := canonOf (Gen.iban.compact x)
+
+/-- the names used in the statement of C07 for IBAN: `ibanCanon x` is the canonical form, `ibanOk … x` the verdict of
+the standard on the input `x` -/
+abbrev ibanCanon (x : Str) : Str := canon_iban x
+abbrev ibanOk (reg : List (Str × List (Nat × Nat))) (national : Str → Option (Str → Bool))
+    (check_country : Bool) (x : Str) : Bool := Std_iban_cc reg national check_country (canon_iban x)
 
 /-- `some (canonical form)` when the standard accepts, `none` otherwise -/
 def verdict (std : Str → Bool) (canon : Str → Str) (x : Str) : Option Str :=
